@@ -143,7 +143,7 @@ end Goml.Wt
 
 /-! ## Type soundness of the reference semantics `Sem` w.r.t. `Wt` (round 11)
 
-`ValTy.valTy S v τ` types the VALUES of `Sem` (`Model/ValTy.lean`); `ValTy.envTy S θ ρ Γ` types an environment
+`ValTy.VT S P v τ` types the VALUES of `Sem` (`Model/ValTy.lean`); `ValTy.ET S P θ ρ Γ` types an environment
 against a context, `θ` instantiating the type parameters of the enclosing generic function (Core is generic, `Sem`
 runs the generic body on concrete values); `ValTy.okProg S P` is the decidable whole-program hypothesis: every
 function satisfies `Wt.wtFn` (the judgement `./check C03` evaluates on every real dump) and lies in the fragment
@@ -160,10 +160,11 @@ the expression instantiated by `θ`.
 Partial: the fragment `okE` = literals, local variables, `let`, `if`, `while`, unary / binary operators (with
 short-circuit `&&` / `||`), tuples and projections, struct / enum constructors, struct field reads, enum field reads
 under an arm that tested the variable for that variant, `match` as Core has it after match compilation, direct calls
-of (generic) top-level functions — the callee annotation must be the instance of the signature that `matchTy` finds —
-and of the printing / `*_to_string` builtins, trait calls on receivers annotated with a concrete type whose dispatch
-row has the annotated signature.  Missing: closures and function values, `Ref` / `Vec` / arrays (need a store
-typing), trait objects, `go`, trait calls on receivers of parametric type (need injectivity of the dispatch key),
+of the printing / `*_to_string` builtins, closures, top-level functions as values (the annotation must be the
+instance of the signature that `matchTy` finds), calls of any fragment expression of function type (closure, local,
+top-level function) annotated with exactly `(argument types) -> result`, trait calls on receivers annotated with a
+concrete type whose dispatch row has the annotated signature.  Missing: `Ref` / `Vec` / arrays (need a store
+typing), trait objects, `go`, builtins used as values, trait calls on receivers of parametric type (need injectivity of the dispatch key),
 ANF tags.  Progress (a fragment program is never `stuck`) is not proved.
 
 What `Wt` alone was too weak for (each is a decidable conjunct of `okE`, evaluated on every real Core dump):
@@ -174,8 +175,8 @@ relates the dispatch table to the implementing function (`dispatchOk`); (4) call
 to the wildcard array length, the fragment asks for the exact instance. -/
 theorem sem_preserves_types_partial (S : Sig) (P : Prog) (hS : SigClosed S) (hP : okProg S P = true) (fuel : Nat)
     {e : Expr} {ρ : Env} {w : World} {Γ : TyEnv} {K : Know} {θ : Subst} {v : Val} {w' : World}
-    (hfrag : okE P Γ K e = true) (hwt : wt S Γ e = true) (hρ : envTy S θ ρ Γ = true) (hK : KOk K ρ)
-    (hev : eval fuel P ρ w e = .ok v w') : valTy S v (substTy θ (getTy e)) = true := by
+    (hfrag : okE P Γ K e = true) (hwt : wt S Γ e = true) (hρ : ET S P θ ρ Γ) (hK : KOk K ρ)
+    (hev : eval fuel P ρ w e = .ok v w') : VT S P v (substTy θ (getTy e)) := by
   simp only [wt, List.isEmpty_iff] at hwt
   exact (sound_all hS hP fuel).expr hfrag hwt hρ hK hev
 
@@ -183,8 +184,8 @@ theorem sem_preserves_types_partial (S : Sig) (P : Prog) (hS : SigClosed S) (hP 
 its type parameters) give a result of the declared result type -/
 theorem sem_preserves_types_apply_partial (S : Sig) (P : Prog) (hS : SigClosed S) (hP : okProg S P = true) (fuel : Nat)
     {name : String} {g : Fn} {θ : Subst} {args : List Val} {w : World} {v : Val} {w' : World}
-    (hg : P.findFn name = some g) (ha : valTys S args (substTys θ (g.params.map (·.2))) = true)
-    (hev : apply fuel P w (.fn name) args = .ok v w') : valTy S v (substTy θ g.ret) = true :=
+    (hg : P.findFn name = some g) (ha : VTs S P args (substTys θ (g.params.map (·.2))))
+    (hev : apply fuel P w (.fn name) args = .ok v w') : VT S P v (substTy θ g.ret) :=
   (sound_all hS hP fuel).app hg ha hev
 
 /-- **Static dispatch.**  In a well-typed program of the fragment, whenever the receiver `recv` of
@@ -196,7 +197,7 @@ the row of the STATIC key, the one `Model/Mono.lean` names (`traitImplFnName tr 
 theorem traitcall_static_dispatch (S : Sig) (P : Prog) (hS : SigClosed S) (hP : okProg S P = true) (fuel : Nat)
     {recv : Expr} {args : List Expr} {tr m : String} {ty : Ty} {ρ : Env} {w w1 : World} {Γ : TyEnv} {K : Know}
     {θ : Subst} {rv : Val}
-    (hfrag : okE P Γ K recv = true) (hwt : wt S Γ recv = true) (hρ : envTy S θ ρ Γ = true) (hK : KOk K ρ)
+    (hfrag : okE P Γ K recv = true) (hwt : wt S Γ recv = true) (hρ : ET S P θ ρ Γ) (hK : KOk K ρ)
     (hc : concreteTy (substTy θ (getTy recv)) = true) (hev : eval fuel P ρ w recv = .ok rv w1) :
     valKey rv = tyKey (substTy θ (getTy recv)) ∧
     eval (fuel + 1) P ρ w (.traitCall tr m ty recv args) =
@@ -205,7 +206,7 @@ theorem traitcall_static_dispatch (S : Sig) (P : Prog) (hS : SigClosed S) (hP : 
         | some i => apply fuel P w2 (.fn i.2.2.2) (rv :: vs)
         | none => .fail (.stuck ("no impl of " ++ tr ++ " for " ++ tyKey (substTy θ (getTy recv)))) w2) := by
   have hv := sem_preserves_types_partial S P hS hP fuel hfrag hwt hρ hK hev
-  have hk := valKey_of_valTy hc hv
+  have hk := valKey_of_VT hc hv
   refine ⟨hk, ?_⟩
   rw [eval_traitCall, hev]
   simp only [Res.andThen_ok]
@@ -215,6 +216,13 @@ theorem traitcall_static_dispatch (S : Sig) (P : Prog) (hS : SigClosed S) (hP : 
   | ok vs w2 =>
     simp only [Res.andThen_ok]
     cases P.impls.find? (fun i => i.1 == tr && i.2.1 == tyKey (substTy θ (getTy recv)) && i.2.2.1 == m) <;> rfl
+
+/-- application of ANY function value (closure, local holding one, top-level function): arguments of the
+parameter types give a result of the result type -/
+theorem sem_preserves_types_applyv_partial (S : Sig) (P : Prog) (hS : SigClosed S) (hP : okProg S P = true) (fuel : Nat)
+    {fv : Val} {as : List Ty} {r : Ty} {args : List Val} {w : World} {v : Val} {w' : World}
+    (hf : VT S P fv (.func as r)) (ha : VTs S P args as) (hev : apply fuel P w fv args = .ok v w') : VT S P v r :=
+  (sound_all hS hP fuel).appv hf ha hev
 
 /-! ### non-vacuity: a generic function, a struct, a trait call on its result -/
 
@@ -250,6 +258,15 @@ def tsProg : Prog :=
 def tsS : Sig := { tsSig with fns := tsProg.fns }
 
 example : okProg tsS tsProg = true := by decide +kernel
+-- closures and function values: `let k = 3; let add = |x: int32| x + k; let f = ident; add(f(4))`
+example : okE tsProg [] []
+    (.letE "k" (.prim (.int 32 true 3))
+      (.letE "add" (.closure (.func [.int 32 true] (.int 32 true)) [("x", .int 32 true)]
+          (.bin .add (.int 32 true) (.var "x" (.int 32 true)) (.var "k" (.int 32 true))))
+        (.letE "f" (.var "ident" (.func [.int 32 true] (.int 32 true)))
+          (.call (.int 32 true) (.var "add" (.func [.int 32 true] (.int 32 true)))
+            [.call (.int 32 true) (.var "f" (.func [.int 32 true] (.int 32 true))) [.prim (.int 32 true 4)]])))) = true := by
+  decide +kernel
 example : wtProg tsS = true := by decide +kernel
 example : (run 100 tsProg).out = "7\n" ∧ (run 100 tsProg).status = "ok" := by decide +kernel
 -- what the fragment refuses: the field read outside the arm that established the variant
@@ -258,7 +275,13 @@ example : okE tsProg [("o", .app (.enum "Opt") [.int 32 true])] []
 -- ... which `Wt` accepts although `Sem` would read a field of `None`
 example : wt tsS [("o", .app (.enum "Opt") [.int 32 true])]
     (.cget (.enum "Opt" "Some" 1) 0 (.int 32 true) (.var "o" (.app (.enum "Opt") [.int 32 true]))) = true := by decide +kernel
--- a dispatch row naming a function of another signature is refused
+-- weakness (2): `Wt` accepts a struct constructor annotated with the ENUM type of the same name (`nominalArgs` looks at the name only)
+example : wt { tsS with enums := [] } [] (.constr (.struct "S") (.enum "S") [.prim (.int 32 true 1)]) = true ∧
+    ctorTyOk (.struct "S") (.enum "S") = false := by decide +kernel
+-- weakness (4): `Wt` compares a callee annotation with the arguments up to the wildcard array length; the fragment asks for equality
+example : compatTys [.array Gen.arrayWildcardLen .bool] [.array 3 .bool] = true ∧
+    tyBeq (.func [.array Gen.arrayWildcardLen .bool] .bool) (.func [.array 3 .bool] .bool) = false := by decide +kernel
+-- weakness (3): `Wt` accepts the trait call whatever the dispatch table says; a dispatch row naming a function of another signature is refused
 example : dispatchOk { tsProg with impls := [("A", "S", "foo", "unwrap")] } "A" "foo" (.struct "S") [] .string = false := by
   decide +kernel
 -- the receiver of a bounded generic function at the instance `T := S`: the key is that of `S`
